@@ -229,6 +229,39 @@ def random_history(rnd: random.Random, prop: str, length: int) -> tuple[dict, li
     return init, evs
 
 
+def stream_history(rnd: random.Random, length: int) -> tuple[dict, list]:
+    """C03 over a real stream transport: lines whose payload bytes may be invalid UTF-8."""
+    proto = rnd.choice(["1.4", "2.0", "2.2"])
+    init = {"metric": True, "ver": proto, "proto": proto, "stream": True, "nodes": [
+        [1, {"type": 17, "ver": "2.0", "bat": 0, "sn": "", "sv": "", "hb": 0, "sl": False, "rb": False,
+             "ch": [[0, {"type": 6, "desc": "", "vals": []}], [1, {"type": 6, "desc": "", "vals": [[0, "a"]]}]]}]]}
+    pays = [b"a", b"\xff", b"\xc3\xa9", b"\xc3", b"\xe2\x82", b"", b"\x80;x", b"57", b"\xed\xa0\x80"]
+    evs = []
+    for _ in range(length):
+        n = rnd.choice([1, 1, 1, 2])
+        c = rnd.choice([0, 1])
+        r = rnd.random()
+        pay = rnd.choice(pays)
+        if r < 0.4:
+            head, cmd, t = f"{n};{c};1;0;0;", 1, 0
+        elif r < 0.7:
+            head, cmd, t, pay = f"{n};{c};2;0;0;", 2, 0, b""
+        elif r < 0.8:
+            head, cmd, t, c = f"{n};255;3;0;11;", 3, 11, 255
+        elif r < 0.9:
+            head, cmd, t, c = f"{n};255;3;0;0;", 3, 0, 255
+        else:
+            head, cmd, t = f"{n};{c};0;0;6;", 0, 6
+        raw = head.encode() + pay + b"\n"
+        try:
+            text = raw.decode("utf-8")
+            p = text[len(head):-1]
+            evs.append(dict(k="recv", n=n, c=c, cmd=cmd, ack=0, t=t, p=p, raw=list(raw)))
+        except UnicodeDecodeError:
+            evs.append(dict(k="recvundec", n=n, c=c, cmd=cmd, ack=0, t=t, p="", raw=list(raw)))
+    return init, evs
+
+
 # ---------------------------------------------------------------------------------------
 
 PROPS = {
@@ -306,6 +339,10 @@ def check(prop: str) -> int:
         for _ in range(nrand):
             init, events = random_history(rnd, prop, length)
             jobs.append((init, events, None))
+        if prop == "C03":  # the byte-stream half: the gateway over a real TCPTransport
+            for _ in range(nrand):
+                init, events = stream_history(rnd, 14)
+                jobs.append((init, events, None))
         import shutil
         shutil.rmtree(workdir, ignore_errors=True)
         traces = execute(jobs)
